@@ -107,7 +107,7 @@ fn token(rng: &mut Rng, n: usize) -> String {
 pub fn gen_uri(rng: &mut Rng, tag: &str) -> Vec<u8> {
     let tl = 1 + rng.below(6);
     let t = if tag.is_empty() { token(rng, tl) } else { tag.to_string() };
-    let s = match rng.weighted(&[50, 10, 8, 8, 4, 4, 4, 4, 4, 4, 3, 2, 2, 4, 2, 2, 1, 1, 1]) {
+    let s = match rng.weighted(&[50, 10, 8, 8, 4, 4, 4, 4, 4, 4, 3, 2, 2, 4, 2, 2, 1, 1, 1, 1]) {
         0 => format!("/{}", t),
         1 => format!("/{}/{}?q={}", token(rng, 3), t, token(rng, 4)),
         2 => format!("http://localhost/{}", t),
@@ -130,7 +130,9 @@ pub fn gen_uri(rng: &mut Rng, tag: &str) -> Vec<u8> {
         16 => format!("http://http://http://{}", t),
         17 => format!("http://host/http://{}", t),
         // long paths (lengths beyond 255)
-        _ => format!("/{}/{}", "p".repeat(rng.range(200, 900)), t),
+        18 => format!("/{}/{}", "p".repeat(rng.range(200, 900)), t),
+        // only characters that some notion of "white space" covers, but no SP: valid URIs
+        _ => (*rng.pick(&["\t", "\x0c", "\x0b", "\n", "\r", "\t\t", "\u{a0}", "\u{2003}"])).to_string(),
     };
     s.into_bytes()
 }
@@ -329,6 +331,12 @@ pub fn gen_header_line(rng: &mut Rng, cfg: &GenCfg) -> Vec<u8> {
                 "*;q=0, gzip",
                 "*;q=0, identity;q=0.5",
                 "gzip;q=1.0, identity; q=0",
+                // empty list elements are not the empty VALUE
+                "gzip,",
+                ",gzip",
+                "gzip,,deflate",
+                ",",
+                " , ",
             ]))
             .into(),
         ),
@@ -398,7 +406,7 @@ pub fn corrupt(rng: &mut Rng, r: &mut GenReq, which: usize) {
         6 => r.sp2 = b"  ".to_vec(),
         7 => r.uri = vec![],
         8 => r.uri = b"/\xff\xfe/bad".to_vec(),
-        9 => r.version = (*rng.pick(&[&b"HTTP/1.2"[..], b"HTTP/2.0", b"http/1.1", b"HTTP/1.1 ", b"", b"HTTP/1.10", b"HTTP/1.1\r"])).to_vec(),
+        9 => r.version = (*rng.pick(&[&b"HTTP/1.2"[..], b"HTTP/2.0", b"http/1.1", b"HTTP/1.1 ", b"", b"HTTP/1.10", b"HTTP/1.1\r", b"HTTP/1.01", b"HTTP/01.1", b"HTTP/+1.1", b"HTTP/1.+0", b"HTTP/1.1.0", b"HTTP/1", b"HTTP/1.", b"HTTP/ 1.1"])).to_vec(),
         10 => r.rl_end = b"\n".to_vec(),
         11 => r.rl_end = b"\r".to_vec(),
         12 => {
@@ -422,7 +430,7 @@ pub fn corrupt(rng: &mut Rng, r: &mut GenReq, which: usize) {
         }
         15 => {
             // Content-Length edge values; appended last so that it is the effective one
-            let v = *rng.pick(&["0", "007", "4294967295", "4294967296", "-1", "", " ", "1e3", "0x10", "99999999999999999999", "00000000000", "000000000000000000007", "0000000004294967295", "0000000004294967296"]);
+            let v = *rng.pick(&["0", "007", "4294967295", "4294967296", "-1", "", " ", "1e3", "0x10", "99999999999999999999", "00000000000", "000000000000000000007", "0000000004294967295", "0000000004294967296", "-0", "-00", "+0", "0.0", "1 0", "0,0"]);
             r.headers.push((format!("Content-Length: {}", v).into_bytes(), b"\r\n".to_vec()));
         }
         16 => {
